@@ -16,7 +16,8 @@
 //
 // output line:  ret=<r> cur=<c0,c1,..> out=<key:seq:pos,...> win=<start+len,...> w=<verdict> fp=<0|1>
 //   win = maximal runs of positions written by one thread, in position order ("?" for the plain-output profiles)
-//   w   = ok | multi@<pos> | missing@<pos> | oob<count>
+//   w   = ok | multi@<pos> | missing@<pos> | oob<count> | movedout@<pos> (an output element is in a moved-from state)
+//         | inputmod@<seq>:<index> (a not yet consumed input element was changed by the call)
 //   fp  = 1 iff (sampling) some double-precision sample index differs from the exact integer floor
 #include <atomic>
 #include <algorithm>
@@ -51,6 +52,14 @@ struct Elem {
     Elem(int k, int s, int p) : cell(new int(k)), seq(s), pos(p), pad{0, 0} {}
     Elem(const Elem& o) : cell(new int(*o.cell)), seq(o.seq), pos(o.pos), pad{0, 0} {}
     Elem& operator=(const Elem& o) { *cell = *o.cell; seq = o.seq; pos = o.pos; return *this; }
+    // real move operations that leave the source in an observable moved-from state: key INT_MIN (smaller than every
+    // live key), seq = MOVED.  An input element that was moved from shows up as a changed input / as a moved-from output.
+    static constexpr int MOVED = -9;
+    Elem(Elem&& o) : cell(new int(*o.cell)), seq(o.seq), pos(o.pos), pad{0, 0} { *o.cell = INT_MIN; o.seq = MOVED; }
+    Elem& operator=(Elem&& o) {
+        if (this != &o) { *cell = *o.cell; seq = o.seq; pos = o.pos; *o.cell = INT_MIN; o.seq = MOVED; }
+        return *this;
+    }
     ~Elem() { *cell = INT_MIN; delete cell; }
     int key() const { return *cell; }
 };
@@ -179,6 +188,20 @@ OutIt call_entry(long entry, SeqIt b, SeqIt e, OutIt tgt, Size size, Comp comp, 
 }
 
 struct Outcome {
+    const std::vector<std::vector<long>>* keys = nullptr;   // the case's input keys (for the input check)
+    bool neg = false;
+    std::string inmod;        // first not yet consumed input element that differs from what the case put there ("s:i")
+    // after the call: the parts of the inputs behind the cursors must be exactly what the caller stored
+    template <class It>
+    void check_input(long s, It begin, long cur) {
+        if (!inmod.empty() || cur < 0) return;
+        const std::vector<long>& ks = (*keys)[static_cast<size_t>(s)];
+        for (long i = cur; i < static_cast<long>(ks.size()); ++i) {
+            const Elem& e = begin[i];
+            long want = neg ? -ks[i] : ks[i];
+            if (e.key() != want || e.seq != s || e.pos != i) { inmod = std::to_string(s) + ":" + std::to_string(i); return; }
+        }
+    }
     long ret = 0;
     std::vector<long> cur;
     bool logged = true;       // windows / exactly-once observable
@@ -202,7 +225,10 @@ void run_plain(long entry, SeqIt wb, SeqIt we, const OrigVec& orig, std::vector<
     }
     for (long i = 0; i < static_cast<long>(size); ++i) out[i] = buf[GUARD + i];
     long s = 0;
-    for (SeqIt it = wb; it != we; ++it, ++s) oc.cur.push_back(static_cast<long>(it->first - orig[s].first));
+    for (SeqIt it = wb; it != we; ++it, ++s) {
+        oc.cur.push_back(static_cast<long>(it->first - orig[s].first));
+        oc.check_input(s, orig[s].first, oc.cur.back());
+    }
 }
 
 using Pair = std::pair<Elem*, Elem*>;
@@ -353,6 +379,7 @@ int main(int argc, char** argv) {
         auto a = static_cast<tlx::MultiwayMergeAlgorithm>(mwma);
         auto sp = static_cast<tlx::MultiwayMergeSplittingAlgorithm>(split);
         Outcome oc;
+        oc.keys = &keys; oc.neg = neg;
         LogIt tgt{&sh, 0};
         std::atomic<long> comp_calls{0};
         switch (profile) {
@@ -391,7 +418,10 @@ int main(int argc, char** argv) {
             else ret = call_entry(entry, work.begin(), work.end(), tgt, static_cast<std::ptrdiff_t>(size), ByKey(), a, sp, static_cast<size_t>(p),
                                   profile == 4 ? 2 : profile == 5 ? 1 : 0);
             oc.ret = ret - tgt;
-            for (long s = 0; s < k; ++s) oc.cur.push_back(work[s].first - seqs[s].first);
+            for (long s = 0; s < k; ++s) {
+                oc.cur.push_back(work[s].first - seqs[s].first);
+                oc.check_input(s, seqs[s].first, oc.cur.back());
+            }
             break;
         }
         }
@@ -427,6 +457,11 @@ int main(int argc, char** argv) {
                 for (long i = 0; i < size; ++i)
                     if (out[i].seq == -7) { verdict = "missing@" + std::to_string(i); break; }
         }
+        if (verdict == "ok") {
+            for (long i = 0; i < size; ++i)
+                if (out[i].key() == INT_MIN || out[i].seq == -9) { verdict = "movedout@" + std::to_string(i); break; }
+        }
+        if (verdict == "ok" && !oc.inmod.empty()) verdict = "inputmod@" + oc.inmod;
         o << " w=" << verdict << " fp=" << fp;
         puts(o.str().c_str());
         fflush(stdout);
